@@ -15,6 +15,7 @@ def step (line : String) : String :=
   | "c06" :: args => PFile.runC06 args
   | "c05h" :: args => Handles.runLine args
   | "c10" :: args => Ioapi.run args
+  | "c07" :: args => NcStore.run args
   | "bin" :: args => Camx.runBin args
   | _ => "err bad-stream"
 
